@@ -5,7 +5,7 @@ from __future__ import annotations
 from harness import c01, mutate, seam
 from harness.c03 import _tree_eq
 from harness.common import PART, known, pick, result
-from harness.models import WILD_MODES, Mixed, Wild, WildList
+from harness.models import WILD_MODES, Mixed, MixedChoices, Wild, WildList
 from harness.specs import _is_pyspace, _is_xml_char, _is_xmlspace
 from vlib.jobs import Job
 
@@ -79,6 +79,12 @@ def _gen(shape, n0, n1, n2, s0, s1, a0):
         root.text = None
         root.children = [mid]
         return root
+    if shape == 10:
+        # children of a mixed wildcard WITH primitive choices; the values include the ones that are falsy in Python
+        ints = ["0", "5", "-1", "10"]
+        kids = [mutate.Node("n", {}, ints[a0 % 4], s0 if s0 != "" else None), mutate.Node("flag", {}, ["false", "true"][n1 % 2], s1 if s1 != "" else None),
+                mutate.Node("s", {}, s0 if s0 != "" else None, None), mutate.Node("g", {}, "0", "e")]
+        return mutate.Node("mc", {}, "a", None, kids[n2 % 4:] + kids[: n2 % 4])
     if shape == 9:
         # leaf carrying xsi:type="xs:QName" whose VALUE uses a prefix bound (on the leaf itself) to a namespace nothing else in the document uses
         return mutate.Node(NAMES[n0], {"{%s}type" % seam.XSI: "xs:QName"}, "p:nm", None, [], [("xs", XS), ("p", "urn:d")])
@@ -166,6 +172,8 @@ def tree_rt(shape: int, n0: int, n1: int, n2: int, s0: str, s1: str, a0: int) ->
             if g.qname.startswith("{urn:") is False:
                 return True  # ##other on a class without namespace: unqualified children are not 'other'
             cls, doc = WildList, mutate.Node("wl", {}, None, None, [g, mutate.Node("{urn:c}c", {}, "z")])
+        elif place == "choices":
+            cls, doc = MixedChoices, g
         else:
             cls, doc = Mixed, mutate.Node("mixed", {}, s0 if s0 != "" else None, None, [g])
             g.tail = s1 if s1 != "" else None
@@ -183,7 +191,7 @@ _CTXS = {}
 
 def _ctx():
     place = PART.get("place", "tree")
-    cls = {"wild": Wild, "wild2": Wild, "list": WildList, "mixed": Mixed}.get(place)
+    cls = {"wild": Wild, "wild2": Wild, "list": WildList, "mixed": Mixed, "choices": MixedChoices}.get(place)
     return c01._context(cls)
 
 
@@ -250,6 +258,8 @@ def plan(tier):
                 for writer in (("native", "lxml") if not quick else (("native", "lxml")[(h_i + shape) % 2],)):
                     for rot in ((0,) if quick else (0, 1, 2)):
                         jobs.append(Job("tree_rt", {"place": place, "shape": shape, "rot": rot, "handler": handler, "writer": writer, "slen": 1 if quick else 2}, 240 if quick else 1200, 30))
+    for handler in ("native", "lxml"):
+        jobs.append(Job("tree_rt", {"place": "choices", "shape": 10, "rot": 0, "handler": handler, "writer": ("lxml", "native")[handler == "lxml"], "slen": 1 if quick else 2}, 240 if quick else 1200, 30))
     for handler in ("native", "lxml"):
         jobs.append(Job("ns_rule", {"handler": handler}, 240, 30))
     return jobs
